@@ -11,6 +11,7 @@ below), `strconv.Atoi` (modelled as `digitsToNat` plus the 2^63 guard).
 import Apko.Model.Version
 import Apko.Proofs.Lemmas.VersionRender
 import Apko.Proofs.Lemmas.VersionConstraintIff
+import Apko.Proofs.Lemmas.VersionRegex
 
 namespace Apko.C03
 open Apko
@@ -620,5 +621,45 @@ example : parseConstraint "so:libc.so.6=1.2".toList =
       (by decide) (by decide) (by decide)⟩
 
 end constraints
+
+/-! ## the expressions themselves (lemmas: `Proofs/Lemmas/VersionRegex.lean`)
+
+`Re` is a regular-expression syntax with the textbook whole-string denotation `Re.M` and a
+printer.  The three syntax trees print to the literals regenerated from version.go; their
+denotations are the grammar / match relation / release test proved above.  So "accepted iff it
+matches the grammar" is stated against the expression in the code, and what remains trusted of
+Go's `regexp` is that it gives this printed syntax its standard meaning (plus leftmost-first
+submatch priority for the constraint groups). -/
+
+section regex
+open VersionGrammar
+
+theorem tie_versionRegex_syntax :
+    String.ofList ('^' :: (versionRe.print ++ ['$'])) = Generated.versionRegex := tie_versionRe_print
+theorem tie_packageNameRegex_syntax :
+    String.ofList ('^' :: (pkgRe.print ++ ['$'])) = Generated.packageNameRegex := tie_pkgRe_print
+theorem tie_endsWithRelease_syntax :
+    String.ofList (releaseRe.print ++ ['$']) = Generated.endsWithReleaseStr := tie_releaseRe_print
+
+/-- a string is accepted as a version iff it matches `versionRegex` -/
+theorem version_accepted_iff_regex (s : Text) :
+    (Spec.parseVersion s).isSome = true ↔ versionRe.M s := by
+  rw [accepts_iff_grammar, versionRe_M]
+
+/-- the regex denotes the grammar -/
+theorem versionRegex_is_grammar (s : Text) : versionRe.M s ↔ ∃ r, Grammar s r := versionRe_M s
+
+/-- the constraint expression denotes `PkgMatch`, and the parser matches iff it does -/
+theorem packageNameRegex_is_pkgMatch (s : Text) : pkgRe.M s ↔ ∃ n o v p, PkgMatch s n o v p :=
+  pkgRe_M s
+theorem constraint_matches_iff_regex (s : Text) :
+    (matchPackageName s).isSome = true ↔ pkgRe.M s := matchPackageName_isSome_iff_regex s
+
+/-- `endsWithRelease` is "`-r\d+$` finds a match" -/
+theorem endsWithRelease_iff_regex (v : Text) :
+    endsWithRelease v = true ↔ ∃ p x, v = p ++ x ∧ releaseRe.M x :=
+  VersionGrammar.endsWithRelease_iff_regex v
+
+end regex
 
 end Apko.C03
